@@ -212,6 +212,21 @@ func (fr *Frame) execInstr(in ssa.Instruction) bool {
 		T := x.Type().Underlying().(*types.Pointer).Elem()
 		r := e.newRef(fr.st, x.Name())
 		e.zeroInit(fr.st, r, T)
+		if !x.Heap || nonEscaping(x, 0) {
+			if st := structOf(T); st != nil {
+				var keys []string
+				for i := 0; i < st.NumFields(); i++ {
+					if !isAggregate(st.Field(i).Type()) {
+						keys = append(keys, e.keysOfStorage(T, st.Field(i).Name(), st.Field(i).Type())...)
+					}
+				}
+				e.registerLocal(r, fr.pc, keys)
+			} else if !isAggregate(T) {
+				e.registerLocal(r, fr.pc, e.keysOfType(T, false))
+			} else if arr, ok := T.Underlying().(*types.Array); ok && !isAggregate(arr.Elem()) {
+				e.registerLocal(r, fr.pc, e.keysOfType(T, false))
+			}
+		}
 		fr.set(x, Val{S: r, NN: true})
 	case *ssa.UnOp:
 		fr.execUnOp(x)
@@ -276,6 +291,9 @@ func (fr *Frame) execInstr(in ssa.Instruction) bool {
 		el := x.Type().Underlying().(*types.Slice).Elem()
 		r := e.newRef(fr.st, x.Name())
 		e.zeroElems(fr.st, r, el)
+		if !isAggregate(el) && nonEscaping(x, 0) {
+			e.registerLocal(r, fr.pc, e.keysOfType(el, true))
+		}
 		v := mkSlice(x.Type(), r, bvLitI(64, 0), ln, cp)
 		v.NN = true
 		fr.set(x, v)
@@ -438,9 +456,7 @@ func (fr *Frame) execUnOp(x *ssa.UnOp) {
 			// A2 covers interface-typed struct fields too (not locals, elements or globals)
 			r.NN = v.A != nil && v.A.Kind == aField && !e.L.isNullableAddr(v.A)
 		}
-		if _, isPtr := T.Underlying().(*types.Pointer); isPtr && r.S != "" {
-			e.assume(mkImp(fr.pc, app("<=", r.S, fr.st.alloc)))
-		}
+		e.assumeRefsOld(r, fr.pc, fr.st.alloc)
 		e.assumeTypeInv(r, fr.pc)
 		fr.set(x, r)
 	case token.NOT:
@@ -740,7 +756,7 @@ func (fr *Frame) execConvert(x *ssa.Convert) {
 		key := elemKey(el, 0)
 		arr := e.heapGet(fr.st, key, srt)
 		content := e.fresh("bytes_of_str", arrSort(sBV64, bvSort(8)))
-		e.assume(fmt.Sprintf("(forall ((i (_ BitVec 64))) (! (= (select %s i) (sat %s i)) :pattern ((select %s i))))", content, v.S, content))
+		e.defArray(content, "i!s", app("sat", v.S, "i!s"))
 		e.heapSet(fr.st, key, srt, sto(arr, r, content))
 		ln := app("slen", v.S)
 		sl := mkSlice(to, r, bvLitI(64, 0), ln, ln)
@@ -986,3 +1002,26 @@ func blockReaches(a, b *ssa.BasicBlock) bool {
 func (fr *Frame) checkGo(x *ssa.Go) {}
 
 var _ = strings.TrimSpace
+
+// assumeRefsOld: every reference held in a value just read from memory denotes an object that
+// already exists (ref <= allocation counter), hence differs from anything allocated later.
+func (e *Exec) assumeRefsOld(v Val, pc, alloc string) {
+	switch u := v.T.Underlying().(type) {
+	case *types.Pointer, *types.Map, *types.Chan, *types.Signature:
+		if v.S != "" && v.A == nil {
+			e.assume(mkImp(pc, app("<=", v.S, alloc)))
+		}
+	case *types.Slice:
+		if len(v.F) == 4 {
+			e.assume(mkImp(pc, app("<=", v.sBase(), alloc)))
+		}
+	case *types.Struct:
+		for i := range v.F {
+			if i < u.NumFields() {
+				f := v.F[i]
+				f.T = u.Field(i).Type()
+				e.assumeRefsOld(f, pc, alloc)
+			}
+		}
+	}
+}
